@@ -10,8 +10,8 @@ pointer-to-int); the hasher is constructed by DefaultHasher::new (fixed keys); t
 the collection loop consumes every pending reply or returns an error; all_shards returns the whole shards field.
 Not decided: stability of DefaultHasher's algorithm across Rust releases (documented unspecified; assumption).
 """
-FLOOR = 6
-REQUIRED = ["C12.a", "C12.b", "C12.c1", "C12.c2", "C12.c3", "C12.c4"]
+FLOOR = 7
+REQUIRED = ["C12.a", "C12.b", "C12.c1", "C12.c2", "C12.c3", "C12.c4", "C12.c5"]
 ASSUMPTIONS = ["std::collections::hash_map::DefaultHasher::new() is SipHash-1-3 with fixed zero keys in every build of the same toolchain"]
 
 NONDET = re.compile(r"(RandomState::new|RandomState::default|ahash::RandomState|ahash::AHasher::default|rand::|fastrand::|getrandom|SystemTime::now|Instant::now|thread::current|ThreadId|thread_rng|process::id|Uuid::new)")
@@ -185,3 +185,28 @@ def run(ctx):
             bad.append(("flush-message-kind", "FLUSH fan-out does not send ShardMessage::Flush", None))
         return bad
     ctx.run("C12.c4", "K9 LOOP + K7", "ShardManager::all_shards / FLUSH fan-out", "the shard list handed to fan-outs is complete", c4)
+
+
+    def c5(inst):
+        bad = []
+        for nm, msg in (("ShardManager::flush_all", "Flush"), ("ShardManager::wait_for_flush_completion", "AwaitFlush"), ("ShardManager::shutdown_all", "Shutdown")):
+            b = F.fn(nm)
+            nxs = loop_nexts(b, lambda L: has_origin(L, None, proj_contains=[".shards"]))
+            if not nxs:
+                raise AnchorMissing("loop over self.shards in %s" % nm)
+            nx = nxs[0]
+            body_blocks = set(b.reach(0, src_edges=variant_edge(b, nx, "Some"), cut_blocks=[nx.bb]))
+            sends = [c_ for c_ in b.find_calls(r"mpsc::(bounded::)?Sender::send$") if c_.bb in body_blocks]
+            if not sends:
+                raise AnchorMissing("send inside the shard loop of %s" % nm)
+            inst.sites.append("%s: %s -> %s" % (nm.split("::")[-1], sp(b, nx.bb), sp(b, sends[0].bb)))
+            w = skipped_iteration(b, nx, [c_.bb for c_ in sends])
+            if w:
+                bad.append(("shard-skipped:%s" % nm.split("::")[-1], "%s can skip a shard" % nm, w))
+            if not any(l[0] == "agg" and l[1].endswith("ShardMessage::" + msg) for l in b.origins(sends[0].args[1])):
+                bad.append(("message-kind:%s" % nm.split("::")[-1], "%s does not send ShardMessage::%s" % (nm, msg), None))
+            for c_ in b.calls:
+                if not c_.cleanup and ADAPTERS.search(c_.nname):
+                    bad.append(("shard-iterator-adapter:%s" % nm.split("::")[-1], "%s narrows the shard list with %s" % (nm, c_.nname), None))
+        return bad
+    ctx.run("C12.c5", "K9 LOOP", "ShardManager::{flush_all, wait_for_flush_completion, shutdown_all}", "shard-wide operations reach every shard", c5)
